@@ -70,3 +70,20 @@ M('pcg:bounded-threshold', ['C18'], 'random.hpp', "			if (r >= threshold) {", "	
 M('pcg:bounded-modulo', ['C18'], 'random.hpp', "				return r % bound;", "				return r % (bound | 1);")
 M('sort:inner-start', ['C18'], 'algorithm.hpp', "		auto j = i;\n		++j;\n", "		auto j = i;\n		++j;\n		if(end - begin > 4 && i == begin) ++j;\n")
 M('array:back-past-end', ['C18'], 'array.hpp', "	constexpr const_reference back() const {\n		return _stor[N - 1];", "	constexpr const_reference back() const {\n		return _stor[N];")
+
+# ---------------------------------------------------------------- C07 interval tree
+M('interval:overlap-test-strict', ['C07'], 'interval_tree.hpp', "		if((lower(node) <= lb && lb <= upper(node))", "		if((lower(node) <= lb && lb < upper(node))")
+M('interval:aggregate-ignores-right', ['C07'], 'interval_tree.hpp', "			if (right && new_max < h(right)->subtree_max)\n				new_max = h(right)->subtree_max;\n", "")
+M('interval:prune-strict', ['C07'], 'interval_tree.hpp', "		if(left && lb <= h(left)->subtree_max) {", "		if(left && lb < h(left)->subtree_max) {")
+M('interval:right-skipped-after-left-hit', ['C07'], 'interval_tree.hpp', "			if(_for_overlaps_in_subtree(fn, lb, ub, left)) {\n				if(right)\n					_for_overlaps_in_subtree(fn, lb, ub, right);\n				return true;\n			}", "			if(_for_overlaps_in_subtree(fn, lb, ub, left)) {\n				if(right && ub != lb)\n					_for_overlaps_in_subtree(fn, lb, ub, right);\n				return true;\n			}")
+M('rbtree:remove_half_leaf-skip-aggregate', ['C07', 'C06'], 'rbtree.hpp', "		if(parent)\n			aggregate_path(parent);\n	}", "	}")
+M('rbtree:replace_node-skip-aggregate', ['C07', 'C06'], 'rbtree.hpp', "		aggregate_node(replacement);\n		aggregate_path(parent);", "		aggregate_path(parent);")
+M('rbtree:rotateRight-skip-reaggregate-u', ['C07', 'C06'], 'rbtree.hpp', "			h(w)->right = n;\n		}\n\n		aggregate_node(u);\n		aggregate_node(n);\n	}\n\n	// ------------------------------------------------------------------------\n	// Aggregation functions.", "			h(w)->right = n;\n		}\n\n		aggregate_node(n);\n	}\n\n	// ------------------------------------------------------------------------\n	// Aggregation functions.")
+
+# ---------------------------------------------------------------- C08 pairing heap
+M('heap:merge-reversed', ['C08'], 'pairing_heap.hpp', "		if(get<compare>(this)(a, b)) {", "		if(get<compare>(this)(b, a)) {")
+M('heap:remove-skip-sibling-backlink', ['C08'], 'pairing_heap.hpp', "			if(sibling)\n				h(sibling).backlink = predecessor;\n", "")
+M('heap:remove-keeps-child', ['C08'], 'pairing_heap.hpp', "			h(element).backlink = nullptr;\n			h(element).sibling = nullptr;\n			h(element).child = nullptr;", "			h(element).backlink = nullptr;\n			h(element).sibling = nullptr;")
+M('heap:remove-drops-children', ['C08'], 'pairing_heap.hpp', "				_root = _merge(_root, _collapse(child));", "				_collapse(child);")
+M('heap:collapse-drops-odd-element', ['C08'], 'pairing_heap.hpp', "			h(element).backlink = nullptr;\n			joined = element;\n		}else{", "			h(element).backlink = nullptr;\n			joined = paired ? paired : element;\n			if(paired) { auto pp = h(paired).backlink; h(paired).backlink = nullptr; paired = pp; }\n		}else{")
+M('heap:pop-keeps-child-link', ['C08'], 'pairing_heap.hpp', "		// Remove the root from the heap.\n		h(_root).child = nullptr;", "		// Remove the root from the heap.")
